@@ -108,7 +108,7 @@ func (r *DecResult) Class() string {
 	return "ok"
 }
 
-// Decrypt runs the real age.Decrypt on src and reads everything with bufSize-byte reads (0 = io.ReadAll).
+// Decrypt runs the real age.Decrypt on src and reads everything with bufSize-byte reads (0 = io.ReadAll, -1 = io.Copy).
 func Decrypt(src io.Reader, armored bool, bufSize int, ids ...age.Identity) (res DecResult) {
 	defer func() {
 		if r := recover(); r != nil {
@@ -129,7 +129,11 @@ func Decrypt(src io.Reader, armored bool, bufSize int, ids ...age.Identity) (res
 		res.ReaderNil = true
 		return
 	}
-	if bufSize <= 0 {
+	if bufSize == -1 { // io.Copy consumer (prefers the reader's WriteTo, if it has one; this is how cmd/age consumes the plaintext)
+		var b bytes.Buffer
+		_, res.ReadErr = io.Copy(&b, rd)
+		res.Plain = b.Bytes()
+	} else if bufSize <= 0 {
 		res.Plain, res.ReadErr = io.ReadAll(rd)
 	} else {
 		buf := make([]byte, bufSize)
